@@ -76,7 +76,8 @@ func (v *VestWorld) keyOf(a sdk.AccAddress) (Acc, bool) {
 	return Acc{}, false
 }
 
-var lowGasLimits = []uint64{40_000, 70_000, 100_000, 140_000, 200_000, 300_000}
+// gasShortfalls: how much less gas than it needs a transaction is given in the too-little-gas runs
+var gasShortfalls = []uint64{1, 300, 1000, 2000, 3500, 6000, 10_000, 15_000, 25_000, 40_000}
 
 // runViaTx executes msg as a real transaction when the case's TxMode selects it and the message can
 // travel that way (one signer whose key the harness holds and whose account exists).
@@ -132,7 +133,14 @@ func (v *VestWorld) runViaTx(msg sdk.Msg) (res MsgResult, done bool) {
 	if h>>12&3 == 0 {
 		// too little gas: baseapp must throw away whatever the handler did before the meter ran out;
 		// with enough of it the transaction simply is the execution
-		if bz, err := SignTx(v.W, signer, accNum, seq, TxOpts{Gas: lowGasLimits[h>>14%uint64(len(lowGasLimits))]}, msg); err == nil {
+		// (the limit is taken relative to what the transaction needs, measured by a discarded run)
+		measure, _ := v.Ctx.CacheContext()
+		need := uint64(DeliverOnBranch(v.App, measure, plain).GasUsed)
+		limit := need / 2
+		if d := gasShortfalls[h>>14%uint64(len(gasShortfalls))]; need > d+20_000 {
+			limit = need - d
+		}
+		if bz, err := SignTx(v.W, signer, accNum, seq, TxOpts{Gas: limit}, msg); err == nil {
 			before := v.txDigest()
 			r := DeliverOnBranch(v.App, v.Ctx, bz)
 			v.takeBackAnte(signer, seq, prePub)
